@@ -14,7 +14,11 @@
      M7 ed25519 host call dropped .............. Verus ed25519.signature
      M8 type "webauthn.create" ................. Verus webauthn.type
      M9 backup check stricter (|| for &&) ...... Verus nothing (partial correctness) ; Kani flags_backup_state_exact, flags_all_three_exact
-     M10 challenge over payload bytes 1..33 .... Verus webauthn.challenge ; Kani challenge_*"""
+     M10 challenge over payload bytes 1..33 .... Verus webauthn.challenge ; Kani challenge_*
+     M11 authenticator data must have 38 bytes . Verus (verifiers) nothing — stricter ; (verifiers_strict) webauthn.complete
+   Unit `verifiers_strict` (completeness) must additionally report: M1 (vacuous: the table lemma is false), M2 base64.*,
+   M5 flags.uv.complete, M8 webauthn.type.complete, M9 flags.backup.complete, M10 webauthn.challenge.complete; the mutants
+   that only DROP a check (M3, M4, M6 changes the signed bytes -> webauthn.complete, M7) stay complete."""
 import importlib.machinery, importlib.util, sys, os, subprocess
 ROOT = os.path.dirname(os.path.dirname(os.path.dirname(os.path.abspath(__file__))))
 os.chdir(ROOT); sys.path.insert(0, '.')
@@ -42,21 +46,25 @@ MUT = {
  'M9_backup_stricter': ([(W, "(flags & AUTH_DATA_FLAGS_BE) == 0 && (flags & AUTH_DATA_FLAGS_BS) != 0", "(flags & AUTH_DATA_FLAGS_BE) == 0 || (flags & AUTH_DATA_FLAGS_BS) != 0")], K_FLAGS),
  'M10_challenge_offset': ([(W, "extract_from_bytes(e, signature_payload, 0..32)", "extract_from_bytes(e, signature_payload, 1..33)")],
                           "challenge_len32_exact challenge_len32_genuine_accepted challenge_short_payload_rejected"),
+ 'M11_auth_data_len_38': ([(W, "AUTHENTICATOR_DATA_MIN_LEN: usize = 37;", "AUTHENTICATOR_DATA_MIN_LEN: usize = 38;")], None),
  'H1_harmless_reorder': ([(W, "    validate_user_present_bit_set(e, flags);\n    validate_user_verified_bit_set(e, flags);\n", "    validate_user_verified_bit_set(e, flags);\n    validate_user_present_bit_set(e, flags);\n")], K_FLAGS),
 }
 only = [a for a in sys.argv[1:] if not a.startswith('--')]
 for name, (reps, kh) in MUT.items():
+    if only and name.split('_')[0] not in only:
+        continue
     s = dict(orig)
     for f, a, b in reps:
         assert a in s[f], (name, a)
         s[f] = s[f].replace(a, b)
     for f in s:
         open(os.path.join(SCR, f), 'w').write(s[f])
-    try:
-        r = m.check_unit('verifiers', 'A', '/var/tmp/vxdev/chk_verifiers', 'quick')
-        print(name, 'VERUS FAILED LABELS:', sorted(r['failed'].keys()), 'undecided:', r['undecided'], 'canaries_ok:', r['canary_failed'] == r['expected_canaries'], '%.1fs' % r['wall'], flush=True)
-    except Exception as ex:
-        print(name, 'VERUS EXC', type(ex).__name__, str(ex)[:300], flush=True)
+    for unit in ('verifiers', 'verifiers_strict'):
+        try:
+            r = m.check_unit(unit, 'A', '/var/tmp/vxdev/chk_verifiers', 'quick')
+            print(name, unit, 'VERUS FAILED LABELS:', sorted(r['failed'].keys()), 'undecided:', r['undecided'], 'canaries_ok:', r['canary_failed'] == r['expected_canaries'], '%.1fs' % r['wall'], flush=True)
+        except Exception as ex:
+            print(name, unit, 'VERUS EXC', type(ex).__name__, str(ex)[:300], flush=True)
     if KANI and kh:
         p = subprocess.run(['kani/verifiers/run.sh'] + kh.split(), capture_output=True, text=True, env=dict(os.environ, VERIF_REPO=SCR))
         bad = [l.split()[0] for l in p.stdout.splitlines() if not l.startswith('#') and ' SUCCESS ' not in l + ' ']
